@@ -99,7 +99,10 @@ def m_gridufunc_call(ev, args, kw, node):
     if s and isinstance(dims, tuple):
         ax, fr, to = s
         # xarray.apply_ufunc moves the core dimension to the end
-        new_dims = tuple(d for d in dims if d != dimsym(ax, fr)) + (dimsym(ax, to),)
+        other = tuple(d for d in dims if d != dimsym(ax, fr))
+        if getattr(ev, "reorder_noncore", False) and len(other) > 1:
+            other = (other[-1],) + other[:-1]  # ... and padding across faces (xr.concat) may bring another dimension to the front
+        new_dims = other + (dimsym(ax, to),)
     return base.with_eff(("UFUNC", uf.attrs.get("funcname"), s, kw.get("axis")), dims=new_dims)
 
 
@@ -134,7 +137,7 @@ def dispatch_models():
 
 
 def run_dispatch(P, funcname="diff", pos=None, to=None, axnames=("AX",), axis_arg=None, dims=None, data_as_vector=False,
-                 default_shifts=None, positions=None, kwargs=None, metric_weighted=None, other_component=None, attr_models=None):
+                 default_shifts=None, positions=None, kwargs=None, metric_weighted=None, other_component=None, attr_models=None, reorder_noncore=False):
     """Evaluate Grid._1d_grid_ufunc_dispatch as a whole.  pos: {axis: position of the data}."""
     from .geometry import POSITIONS
 
@@ -142,6 +145,7 @@ def run_dispatch(P, funcname="diff", pos=None, to=None, axnames=("AX",), axis_ar
     am = da_attr_models()
     am.update(attr_models or {})
     ev = Evaluator(P, models=dispatch_models(), attr_models=am, method_models=da_method_models())
+    ev.reorder_noncore = reorder_noncore
     fi = P.func("grid:Grid._1d_grid_ufunc_dispatch")
 
     def make():
